@@ -53,6 +53,7 @@ def build(C):
     t += C.fn(NET, 'impl NetworkInner :: fn rpc', 'NetworkInner::rpc', ['C09'], ret='r', sig_rewrites=[('&self', '&mut self')], spec='''
     ensures
         !(old(self).active_peers.live && old(self).active_peers.set.0.connections@.contains_key(peer_id)) ==> r is Err, // @OBL NetworkInner::rpc::fails_when_not_connected [C09] after a disconnect (and generally whenever the peer is not in the connected set) an RPC to it fails instead of being sent
+        final(self).active_peers.set.0 == old(self).active_peers.set.0, // @OBL NetworkInner::rpc::leaves_the_connected_set_alone [C04,C05,C09] sending a request, whatever its outcome, neither registers nor removes nor closes a connection: a request that fails on a replaced connection cannot evict the replacement
 ''')
     t += '}\n'
     return t
